@@ -70,7 +70,7 @@ def run(ctx):
     ctx.static_and_proofs("secure")
     quick = ctx.tier == "quick"
     args = ["-secure", "260" if quick else "10000", "-plans", "10" if quick else "250",
-            "-reg", "150" if quick else "6000", "-chains", "90" if quick else "3000", "-depth", "5"]
+            "-reg", "150" if quick else "6000", "-chains", "90" if quick else "3000", "-conc", "40" if quick else "300", "-depth", "5"]
     cases = ctx.harness("c17", args, timeout=1500)
     if cases is None:
         ctx.evidence(dict(evaluations=0, distinct_nontrivial=0, rule="harness did not run", samples=[]))
@@ -161,7 +161,13 @@ def run(ctx):
         "the abstraction of Go values/types to GoVal.gv / Registry.ty terms and the canary labels are computed by the harness with reflect and strings only",
         "methods are invisible to the model (the specification: json.Marshaler / TextMarshaler / Stringer / error implementers are "
         "scrubbed like any struct); exercised on all three surfaces by the hand-declared types of harness/cmd/c17/methods.go",
-        "values are trees: no sharing/cycles; recursive types are not generated (reflect.StructOf cannot build them)",
+        "values are trees: no sharing/cycles in VALUES; recursive TYPES (self-, 2- and 3-type cycles through pointers, slices, maps, "
+        "struct values, interfaces) are hand-declared in harness/cmd/c17/recursive.go with finite values and go through all three surfaces; "
+        "for the registry a recursive type is unfolded along each path until a struct type repeats (the repeat is cut), which has the same "
+        "verdict as the code's walk with its `seen` set",
+        "secure-concurrent family: two goroutines run clone.Secure at the same instant on two values of types never used before in the "
+        "process (one recursive hand-declared family, N wide reflect.StructOf types); the model is sequential - clone.Secure has no shared "
+        "state, so each result must equal the sequential one (deterministic on a correct tree; a racy implementation shows up probabilistically)",
         "ordinary unexported fields and anything below a Go array are outside the property (documented exclusions of clone.Secure); "
         "reflect.StructOf builds exported, non-embedded fields only: unexported fields, embedded structs / *structs of unexported "
         "types (whose promoted fields ARE in scope) and named types are exercised by the hand-declared types of harness/cmd/c17/static.go",
